@@ -18,6 +18,7 @@ PROGS = collections.OrderedDict([
     ("nobrackets", H + "\nG | 0\nH({a}) | 1\nK() | 0\n"),
     ("listkw", H + "\nG({a}, k=[1, 2]) | 0\nH(l=[\"x\"]) | 1\n"),
     ("sharedarray", H + "\nfloat array A =\n    1.5, 2.5\nG(A, {a}) | 0\nH(A) | 1\n"),
+    ("complexarray", H + "\ncomplex array U =\n    1-2j, -0.5j\n    -3+0j, 2+1j\nint array W =\n    -1, 2\nG(U, {a}) | 0\nH(k=U, w=W) | 1\n"),
     ("regref", H + "\nMeasureX | 0\nG(2*q0, {a}) | 1\nH(k=q0+q1) | 2\nMeasure | 1\n"),
     ("tdm", H + "type tdm (temporal_modes=2)\n\nfloat array p0 =\n    0.5, 1.5\nint array p1 =\n    1, 2\nG(p0, {a}) | 0\nH(p1) | 1\n"),
     ("scalarvar", H + "\nfloat x = {a}\nG(x) | 0\nH() | 0\n"),
